@@ -39,8 +39,13 @@ def cases(draw, tier):
     if not big and draw(st.integers(0, 14)) == 0:
         # record lengths at and around powers of two
         n = draw(st.sampled_from([127, 128, 129, 255, 256, 257]))
-    regime = draw(st.sampled_from(["uniform", "lattice", "gaps"]))
-    if regime == "uniform":
+    regime = draw(st.sampled_from(["uniform", "lattice", "gaps", "regular"]))
+    if regime == "regular":
+        # constant step (the index is then built with pandas.date_range and
+        # carries a freq), stamps anywhere relative to the period boundaries
+        steps = [draw(st.sampled_from([60, 120, 300, 360, 600, 900, 1200,
+                                       1800, 3600, 5400, 420]))] * (n - 1)
+    elif regime == "uniform":
         steps = [draw(st.integers(1, 4000)) for _ in range(n - 1)]
     elif regime == "lattice":
         steps = [draw(st.sampled_from([0, 600, 900, 1800, 3600, 5400]))
@@ -112,9 +117,14 @@ def reference(ts, vs, hstart, P, nper, rainfall, maxgap):
     return out
 
 
-def make_index(t0, secs, unit, zone):
-    idx = pd.DatetimeIndex([t0 + pd.Timedelta(seconds=int(s))
-                            for s in secs]).as_unit(unit)
+def make_index(t0, secs, unit, zone, regular=False):
+    if regular and len(secs) > 1:
+        idx = pd.date_range(t0, periods=len(secs),
+                            freq=f"{int(secs[1] - secs[0])}s").as_unit(unit)
+        assert idx.freq is not None
+    else:
+        idx = pd.DatetimeIndex([t0 + pd.Timedelta(seconds=int(s))
+                                for s in secs]).as_unit(unit)
     if zone == "Australia/Brisbane" and t0 < pd.Timestamp("1994-01-01"):
         # Queensland observed daylight saving in 1971-72 and 1989-92: a
         # DST change inside the series is outside the stated domain
@@ -132,7 +142,8 @@ def oracle(case):
     vals = np.array(case["vals"], dtype=np.float64)
     t0 = pd.Timestamp("1970-01-01") + pd.Timedelta(days=case["day"]) \
         + pd.Timedelta(seconds=case["offset"])
-    idx = make_index(t0, secs, case["unit"], case["zone"])
+    idx = make_index(t0, secs, case["unit"], case["zone"],
+                     regular=case["regime"] == "regular")
     se = pd.Series(vals, index=idx)
     r = dutils.var2h(se, nbsec_per_period=P, maxgapsec=maxgap,
                      rainfall=rainfall, display=case.get("display", False))
@@ -214,6 +225,7 @@ def oracle(case):
     # same wall-clock stamps in another unit / zone give the same result
     alt_unit = UNITS[(UNITS.index(case["unit"]) + 1) % 4]
     alt_zone = ZONES[(ZONES.index(case["zone"]) + 1) % 4]
+    # (always built stamp by stamp: no freq attribute)
     se2 = pd.Series(vals, index=make_index(t0, secs, alt_unit, alt_zone))
     r2 = dutils.var2h(se2, nbsec_per_period=P, maxgapsec=maxgap,
                       rainfall=rainfall)
